@@ -642,8 +642,9 @@ func (c *Ctx) FullLoop(fn *ssa.Function, anchor Target, level int, why string) {
 // StickyFlag (K12): the effect (call matching spec whose canonical argument idx matches glob) happens only when a
 // found-flag is false, and that flag is STICKY: initialised false and only ever set to true (`phi{false|loop|true}`, or
 // `phi{false|true}` when the scan breaks at the first hit) - a flag that is re-assigned by every iteration
-// (`found = a == b`) remembers only the last element scanned.
-func (c *Ctx) StickyFlag(fn *ssa.Function, spec string, idx int, glob, why string) {
+// (`found = a == b`) remembers only the last element scanned. Where the scan has no flag at all, the edge taken on a
+// hit (condition `hit`) must not reach the effect.
+func (c *Ctx) StickyFlag(fn *ssa.Function, spec string, idx int, glob string, hit Cond, why string) {
 	if fn == nil {
 		return
 	}
@@ -664,6 +665,18 @@ func (c *Ctx) StickyFlag(fn *ssa.Function, spec string, idx int, glob, why strin
 			seen += " " + condStr(g)
 			if !g.Sense && (g.Canon == "phi{false|loop|true}" || g.Canon == "phi{false|true}") {
 				okFlag = true
+			}
+		}
+		// or no flag at all: the hit leaves the scan on a path that cannot reach the effect (`return true` of an
+		// absorbed predicate, `goto skip`)
+		if !okFlag && seen == "" {
+			if hes := CondEdges(fn, hit); len(hes) > 0 {
+				okFlag = true
+				for _, he := range hes {
+					if ReachFrom([]*ssa.BasicBlock{he.To()}, nil)[e.Call.Block()] {
+						okFlag = false
+					}
+				}
 			}
 		}
 		if okFlag {
